@@ -218,7 +218,7 @@ pub fn run(ctx: &mut Ctx) {
     }
     ctx.extra.insert("exhaustive_subspace".into(), json!({"transactions_up_to": nmax, "patterns": count}));
     let strat = (proptest::collection::vec((0u8..5, 0u8..5, prop_oneof![9 => Just(false), 1 => Just(true)]), 0..25), proptest::collection::vec(0u8..6, 0..4)).prop_map(|(txs, keylist)| Case { txs, keylist });
-    let cases = ctx.tier.pick(2000u32, 60_000);
+    let cases = ctx.tier.pick(6000u32, 60_000);
     pbt_run(ctx, "random_blocks", cases, strat, |c, case, counting| eval(c, case, counting));
 }
 
